@@ -125,13 +125,20 @@ def family_c(vd):
         "get_region": (lambda c: vd.get_region(c), 3),
         "distance_mask(data_coordinates=)": (lambda c: vd.distance_mask(c, maxdist=2.0, coordinates=gc), 3),
         "convexhull_mask(data_coordinates=)": (lambda c: vd.convexhull_mask(c, coordinates=gc), 3),
+        "distance_mask(data_coordinates=, grid=)": (lambda c: vd.distance_mask(c, maxdist=2.0, grid=vd.make_xarray_grid(gc, np.ones((3, 4)), "dummy")), 3),
+        "convexhull_mask(data_coordinates=, grid=)": (lambda c: vd.convexhull_mask(c, grid=vd.make_xarray_grid(gc, np.ones((3, 4)), "dummy")), 3),
+        "distance_mask(data_coordinates=, projection=)": (lambda c: vd.distance_mask(c, maxdist=4.0, coordinates=gc, projection=lambda e, n: (e * 2.0, n + 1.0)), 3),
+        "convexhull_mask(data_coordinates=, projection=)": (lambda c: vd.convexhull_mask(c, coordinates=gc, projection=lambda e, n: (e * 2.0, n + 1.0)), 3),
+        "distance_mask(data_coordinates=, grid=, projection=)": (lambda c: vd.distance_mask(c, maxdist=4.0, grid=vd.make_xarray_grid(gc, np.ones((3, 4)), "dummy"), projection=lambda e, n: (e * 2.0, n + 1.0)), 3),
+        "convexhull_mask(data_coordinates=, grid=, projection=)": (lambda c: vd.convexhull_mask(c, grid=vd.make_xarray_grid(gc, np.ones((3, 4)), "dummy"), projection=lambda e, n: (e * 2.0, n + 1.0)), 3),
     }
 
 
 # what the UNCHANGED code rejects, frozen (probed on /repo at a67f133..; see harness/c20.meta.json).
 # key: (entry, base, position index or 'extra', deformation) -> True (raises) ; everything not listed is accepted.
 # A position that is accepted although inconsistent is reported in the evidence, never flagged.
-FROZEN_C = None      # filled by _frozen()
+MASKS = ["%s(data_coordinates=%s)" % (f, v) for f in ("distance_mask", "convexhull_mask")
+         for v in ("", ", grid=", ", projection=", ", grid=, projection=")]
 
 
 def _frozen():
@@ -142,14 +149,10 @@ def _frozen():
                 rej.add(("median_distance", base, i, d))            # np.broadcast of easting/northing / stacking fails
                 if d != "scalar":                                   # a scalar northing broadcasts in `inside`: no demand
                     rej.add(("inside", base, i, d))                 # logical_and(in_we, in_ns, out=...) cannot broadcast
-                rej.add(("distance_mask(data_coordinates=)", base, i, d))   # np.transpose of an inhomogeneous pair
-                rej.add(("convexhull_mask(data_coordinates=)", base, i, d))
-    # same size, other shape: the pair stacks after raveling (misaligned, accepted)
-    for e in ("distance_mask(data_coordinates=)", "convexhull_mask(data_coordinates=)"):
-        for i in (0, 1):
-            rej.discard((e, "2d", i, "transposed"))
-            rej.discard((e, "2d", i, "raveled"))
-            rej.discard((e, "1d", i, "column"))
+                # since 4cdef40 (finding F23): check_coordinates on the easting / northing pair - every other shape is
+                # rejected, in particular the same-size ones (transposed, raveled, (12,) vs (12,1)) that used to be misaligned
+                for m in MASKS:
+                    rej.add((m, base, i, d))
     return rej
 
 
